@@ -59,17 +59,19 @@ Record state := mkstate {
   s_out : string;
   s_call_depth : nat;
   s_call_params : list (list dloc);
-  s_hints : list (string * N) }.                  (* Id-node hint cache, keyed by node position+text *)
+  s_hints : list (string * N);                    (* Id-node hint cache, keyed by node position+text *)
+  s_cb : nat * option (nat * string) }.           (* harness callback `cb`: invocations so far; (n, kind) = throw `kind` on the n-th *)
 
 Definition init_state : state :=
-  mkstate [] [] [[[]]] [] [] "" 0 [[]] [].
+  mkstate [] [] [[[]]] [] [] "" 0 [[]] [] (0, None).
 
 (* ---------------------------------------------------------------- outcomes *)
 Inductive trace_entry := TE (k : kind) (l : srcloc).
 Inductive exn :=
 | EBoxed (d : dloc)                                  (* throw(x): the Boxed_Value itself *)
 | EEval (reason : string) (stack : list trace_entry) (* chaiscript::exception::eval_error *)
-| EStd (ty : string) (what : string).                (* arithmetic_error, out_of_range, range_error, bad_boxed_cast … *)
+| EStd (ty : string) (what : string)                 (* arithmetic_error, out_of_range, range_error, bad_boxed_cast … *)
+| EForeign (what : string).                          (* a C++ exception that is not a std::exception: no script catch clause sees it *)
 
 (* everything other than normal completion and exhaustion of the model's fuel *)
 Inductive fail :=
@@ -95,15 +97,16 @@ Fixpoint replace_nth {A} (n : nat) (l : list A) (x : A) : list A :=
   | h :: t, S k => h :: replace_nth k t x
   end.
 
-Definition set_objs (s : state) v := mkstate v (s_data s) (s_stacks s) (s_globals s) (s_funcs s) (s_out s) (s_call_depth s) (s_call_params s) (s_hints s).
-Definition set_data (s : state) v := mkstate (s_objs s) v (s_stacks s) (s_globals s) (s_funcs s) (s_out s) (s_call_depth s) (s_call_params s) (s_hints s).
-Definition set_stacks (s : state) v := mkstate (s_objs s) (s_data s) v (s_globals s) (s_funcs s) (s_out s) (s_call_depth s) (s_call_params s) (s_hints s).
-Definition set_globals (s : state) v := mkstate (s_objs s) (s_data s) (s_stacks s) v (s_funcs s) (s_out s) (s_call_depth s) (s_call_params s) (s_hints s).
-Definition set_funcs (s : state) v := mkstate (s_objs s) (s_data s) (s_stacks s) (s_globals s) v (s_out s) (s_call_depth s) (s_call_params s) (s_hints s).
-Definition set_out (s : state) v := mkstate (s_objs s) (s_data s) (s_stacks s) (s_globals s) (s_funcs s) v (s_call_depth s) (s_call_params s) (s_hints s).
-Definition set_call_depth (s : state) v := mkstate (s_objs s) (s_data s) (s_stacks s) (s_globals s) (s_funcs s) (s_out s) v (s_call_params s) (s_hints s).
-Definition set_call_params (s : state) v := mkstate (s_objs s) (s_data s) (s_stacks s) (s_globals s) (s_funcs s) (s_out s) (s_call_depth s) v (s_hints s).
-Definition set_hints (s : state) v := mkstate (s_objs s) (s_data s) (s_stacks s) (s_globals s) (s_funcs s) (s_out s) (s_call_depth s) (s_call_params s) v.
+Definition set_objs (s : state) v := mkstate v (s_data s) (s_stacks s) (s_globals s) (s_funcs s) (s_out s) (s_call_depth s) (s_call_params s) (s_hints s) (s_cb s).
+Definition set_data (s : state) v := mkstate (s_objs s) v (s_stacks s) (s_globals s) (s_funcs s) (s_out s) (s_call_depth s) (s_call_params s) (s_hints s) (s_cb s).
+Definition set_stacks (s : state) v := mkstate (s_objs s) (s_data s) v (s_globals s) (s_funcs s) (s_out s) (s_call_depth s) (s_call_params s) (s_hints s) (s_cb s).
+Definition set_globals (s : state) v := mkstate (s_objs s) (s_data s) (s_stacks s) v (s_funcs s) (s_out s) (s_call_depth s) (s_call_params s) (s_hints s) (s_cb s).
+Definition set_funcs (s : state) v := mkstate (s_objs s) (s_data s) (s_stacks s) (s_globals s) v (s_out s) (s_call_depth s) (s_call_params s) (s_hints s) (s_cb s).
+Definition set_out (s : state) v := mkstate (s_objs s) (s_data s) (s_stacks s) (s_globals s) (s_funcs s) v (s_call_depth s) (s_call_params s) (s_hints s) (s_cb s).
+Definition set_call_depth (s : state) v := mkstate (s_objs s) (s_data s) (s_stacks s) (s_globals s) (s_funcs s) (s_out s) v (s_call_params s) (s_hints s) (s_cb s).
+Definition set_call_params (s : state) v := mkstate (s_objs s) (s_data s) (s_stacks s) (s_globals s) (s_funcs s) (s_out s) (s_call_depth s) v (s_hints s) (s_cb s).
+Definition set_hints (s : state) v := mkstate (s_objs s) (s_data s) (s_stacks s) (s_globals s) (s_funcs s) (s_out s) (s_call_depth s) (s_call_params s) v (s_cb s).
+Definition set_cb (s : state) v := mkstate (s_objs s) (s_data s) (s_stacks s) (s_globals s) (s_funcs s) (s_out s) (s_call_depth s) (s_call_params s) (s_hints s) v.
 
 Definition assoc {A} (l : list (string * A)) (k : string) : option A :=
   match find (fun e => String.eqb (fst e) k) l with Some (_, v) => Some v | None => None end.
@@ -158,6 +161,7 @@ Inductive prim : Type -> Type :=
 | PGetFuncs (name : string) : prim (option (list closure))
 | PSetFuncs (name : string) (l : list closure) : prim unit
 | POut (text : string) : prim unit
+| PTick : prim (option string)                                      (* one more invocation of the harness callback; Some kind = it throws *)
 | PSaveParams (ps : list dloc) : prim unit.
 
 Definition run_prim {A} (p : prim A) : M A :=
@@ -198,6 +202,9 @@ Definition run_prim {A} (p : prim A) : M A :=
                                       | Some _ => map (fun e => if String.eqb (fst e) name then (name, l) else e) (s_funcs s)
                                       end))
   | POut text => fun s => (RVal tt, set_out s (s_out s ++ text))
+  | PTick => fun s => let '(cnt, fault) := s_cb s in
+                      let cnt' := S cnt in
+                      (RVal (match fault with Some (n, kd) => if Nat.eqb n cnt' then Some kd else None | None => None end), set_cb s (cnt', fault))
   | PSaveParams ps => fun s => (RVal tt, match s_call_params s with p :: r => set_call_params s ((app ps p) :: r) | [] => s end)
   end.
 
@@ -283,7 +290,7 @@ Definition add_object (name : string) (d : dloc) : prog unit :=
 
 (* ---------------------------------------------------------------- builtin names the model knows *)
 Definition builtin_names : list string :=
-  ["print"; "puts"; "to_string"; "throw"; "size"; "empty"; "push_back"; "front"; "back"; "pop_back"; "clone"; "what"].
+  ["print"; "puts"; "to_string"; "throw"; "size"; "empty"; "push_back"; "front"; "back"; "pop_back"; "clone"; "what"; "cb"].
 
 (* ---------------------------------------------------------------- Id lookup (Dispatch_Engine::get_object) *)
 Definition hint_key (n : ast) : string :=
